@@ -27,6 +27,13 @@
 (* that the statement gives the case, and the harness decides about the    *)
 (* real code (a real outcome matching neither prediction on a case the     *)
 (* statement leaves open is drift).                                        *)
+(*                                                                         *)
+(* Round 3 (fixes/XmlEnc-c.md) adds two dimensions of the element AS       *)
+(* WRITTEN: its lexical form (record Lex: namespace bindings, place of the *)
+(* declarations, attribute order, white space and comments between child   *)
+(* elements) and the content of ds:X509Data as a sequence of items         *)
+(* (certificates and the hints X509IssuerSerial / X509SubjectName /        *)
+(* X509SKI, in one or several X509Data elements).                          *)
 (***************************************************************************)
 EXTENDS Integers, Sequences, FiniteSets, TLC, Json
 
@@ -73,25 +80,31 @@ W3C(a) == CASE a = "aes128-cbc"    -> [mode |-> "cbc", cipher |-> "aes",  key |-
 \* xmlenc/pubkey.go:155-184   xmlenc11 rsa-oaep : no xenc11:MGF element written / read (W3C default MGF1-SHA-1)
 \* xmlenc/decrypt.go:81-84    key.(*rsa.PrivateKey) succeeds for a nil pointer and for a value without modulus / private
 \*                            exponent; the key is dereferenced later (rsaKey.N.Cmp, crypto/rsa) without a check
+\* xmlenc/pubkey.go:133-143   (tree with the fixes) xmlenc11 rsa-oaep: the MGF named by xenc11:MGF (default mgf1sha1) must be
+\*                            MGF1 over the DigestMethod's hash - crypto/rsa is used with one hash - else "not implemented"
+\* PrefixBound                element names an implementation looks up with the literal prefix the package writes
+\*                            (etree path step "ds:DigestMethod" instead of "DigestMethod").  Empty in the pinned tree
+\*                            and in the tree with the fixes: every FindElement path of decrypt.go / pubkey.go / cbc.go /
+\*                            gcm.go is written without prefix.  See "lexical form" below.
 DevNone ==
   [StripOffByOne |-> FALSE, AcceptOversizePadding |-> FALSE, DesSingleKey |-> FALSE, DecIvFixed16 |-> FALSE,
    NoAlignCheck |-> FALSE, GcmPads |-> FALSE, GcmNonceShadowed |-> FALSE, GcmSealsZeros |-> FALSE,
    GcmNonceNotEmitted |-> FALSE, NoGcmLenCheck |-> FALSE, Oaep11Unregistered |-> FALSE,
    DigestEmit |-> "w3c", DigestAccept |-> {"w3c"}, MgfFollowsDigest |-> FALSE, Oaep11NoMgf |-> FALSE,
-   NoKeyCompletenessCheck |-> FALSE]
+   NoKeyCompletenessCheck |-> FALSE, Oaep11MgfIsDigest |-> FALSE, PrefixBound |-> {}]
 DevPinned ==
   [StripOffByOne |-> TRUE, AcceptOversizePadding |-> TRUE, DesSingleKey |-> TRUE, DecIvFixed16 |-> TRUE,
    NoAlignCheck |-> TRUE, GcmPads |-> TRUE, GcmNonceShadowed |-> TRUE, GcmSealsZeros |-> TRUE,
    GcmNonceNotEmitted |-> TRUE, NoGcmLenCheck |-> TRUE, Oaep11Unregistered |-> TRUE,
    DigestEmit |-> "pkg", DigestAccept |-> {"pkg"}, MgfFollowsDigest |-> TRUE, Oaep11NoMgf |-> TRUE,
-   NoKeyCompletenessCheck |-> TRUE]
+   NoKeyCompletenessCheck |-> TRUE, Oaep11MgfIsDigest |-> FALSE, PrefixBound |-> {}]
 \* the tree with the patches of /verif/fixes/C10-*.patch, C11-*.patch, C11b-*.patch applied
 DevFixed ==
   [StripOffByOne |-> FALSE, AcceptOversizePadding |-> TRUE, DesSingleKey |-> FALSE, DecIvFixed16 |-> FALSE,
    NoAlignCheck |-> FALSE, GcmPads |-> TRUE, GcmNonceShadowed |-> TRUE, GcmSealsZeros |-> TRUE,
    GcmNonceNotEmitted |-> TRUE, NoGcmLenCheck |-> FALSE, Oaep11Unregistered |-> FALSE,
    DigestEmit |-> "w3c", DigestAccept |-> {"w3c", "pkg"}, MgfFollowsDigest |-> TRUE, Oaep11NoMgf |-> FALSE,
-   NoKeyCompletenessCheck |-> FALSE]
+   NoKeyCompletenessCheck |-> FALSE, Oaep11MgfIsDigest |-> TRUE, PrefixBound |-> {}]
 
 (* implementation parameters under a deviation record d *)
 KeySize(d, a) == IF a = "tripledes-cbc" /\ d.DesSingleKey THEN 8 ELSE W3C(a).key
@@ -144,14 +157,21 @@ El(em, cv, len, ct, dm, mgf, cert, eks) ==
   [em |-> em, cv |-> cv, len |-> len, ct |-> ct, dm |-> dm, mgf |-> mgf, cert |-> cert, eks |-> eks]
 DataEl(em, cv, len, ct, eks) == El(em, cv, len, ct, NoDm, "absent", "absent", eks)
 
-\* X509Data classes.  A certificate is [kind, n, e]: kind rsa | ec | garbage (text that is not a certificate),
-\* n the identity of the modulus (name of the key pair), e the public exponent ("F4" = 65537 | "3").
-\* data: an X509Data element is present; certs: its X509Certificate children in document order; ws: the base64 text is
-\* line-wrapped and indented / surrounded by white space (allowed by xs:base64Binary).
+\* X509Data classes.  The content of ds:KeyInfo/ds:X509Data is a sequence of ITEMS in document order, [kind, n, e]:
+\*   a certificate (X509Certificate): kind rsa | ec | garbage (text that is not a certificate), n the identity of the
+\*     modulus (name of the key pair), e the public exponent ("F4" = 65537 | "3");
+\*   a hint: kind is (X509IssuerSerial) | sn (X509SubjectName) | ski (X509SKI), taken from the certificate of key pair n.
+\* data: an X509Data element is present; items: its children; certs: the X509Certificate children among them, in
+\* document order; ws: the base64 text is line-wrapped and indented / surrounded by white space (allowed by
+\* xs:base64Binary); split: every item sits in an X509Data element of its own (KeyInfo may hold several).
 Crt(kind, n, e) == [kind |-> kind, n |-> n, e |-> e]
-XD(certs, ws) == [data |-> TRUE, certs |-> certs, ws |-> ws]
-X509(c) == CASE c = "absent"  -> [data |-> FALSE, certs |-> <<>>, ws |-> FALSE]
-             [] c = "nocert"  -> XD(<<>>, FALSE)                                   \* X509SubjectName / X509IssuerSerial only
+Hint(kind, of) == Crt(kind, of, "none")
+IsCrt(it) == it.kind \in {"rsa", "ec", "garbage"}
+XI(items, ws, split) == [data |-> TRUE, items |-> items, certs |-> SelectSeq(items, IsCrt), ws |-> ws, split |-> split]
+XD(certs, ws) == XI(certs, ws, FALSE)
+X509Base(c) ==
+           CASE c = "absent"  -> [data |-> FALSE, items |-> <<>>, certs |-> <<>>, ws |-> FALSE, split |-> FALSE]
+             [] c = "nocert"  -> XD(<<>>, FALSE)                                   \* an X509Data element without children
              [] c = "sp"      -> XD(<<Crt("rsa", "sp", "F4")>>, FALSE)
              [] c = "sp2"     -> XD(<<Crt("rsa", "sp2", "F4")>>, FALSE)             \* other modulus, same exponent
              [] c = "sp-e3"   -> XD(<<Crt("rsa", "sp", "3")>>, FALSE)               \* same modulus, other exponent
@@ -166,6 +186,86 @@ X509(c) == CASE c = "absent"  -> [data |-> FALSE, certs |-> <<>>, ws |-> FALSE]
              [] c = "sp2+sp"  -> XD(<<Crt("rsa", "sp2", "F4"), Crt("rsa", "sp", "F4")>>, FALSE)
 CertNames == {"absent", "nocert", "sp", "sp2", "sp-e3", "sp2-e3", "rsa1024", "rsa3072", "ec256", "garbage",
               "sp-ws", "sp2-ws", "sp+sp2", "sp2+sp"}
+\* hints, alone and combined with certificates: in front of them, behind them, in an X509Data of their own ("|").
+\* "is+sp2" = the X509IssuerSerial of the recipient's certificate followed by the certificate of another key;
+\* "is2+sn2+ski2+sp2" = what xmlsec / Shibboleth write for another recipient.
+HintSeq(h) == CASE h = "is"  -> <<Hint("is", "sp")>>  [] h = "is2" -> <<Hint("is", "sp2")>>
+                [] h = "sn"  -> <<Hint("sn", "sp")>>  [] h = "ski" -> <<Hint("ski", "sp")>>
+                [] h = "is+sn+ski"    -> <<Hint("is", "sp"), Hint("sn", "sp"), Hint("ski", "sp")>>
+                [] h = "is2+sn2+ski2" -> <<Hint("is", "sp2"), Hint("sn", "sp2"), Hint("ski", "sp2")>>
+Thorough == Family \in {"C10t", "C11t"}
+XHints == IF Thorough THEN {"is", "is2", "sn", "ski", "is+sn+ski", "is2+sn2+ski2"} ELSE {"is", "sn", "ski", "is2+sn2+ski2"}
+XCerts == IF Thorough THEN {"sp", "sp2", "sp-e3", "ec256", "garbage", "sp+sp2", "sp2+sp", "sp2-ws"}
+                      ELSE {"sp", "sp2", "sp-e3", "ec256"}
+XGen == { [name |-> h, x |-> XI(HintSeq(h), FALSE, FALSE)] : h \in XHints }
+        \cup UNION { { [name |-> h \o "+" \o cc, x |-> XI(HintSeq(h) \o X509Base(cc).certs, X509Base(cc).ws, FALSE)],
+                       [name |-> cc \o "+" \o h, x |-> XI(X509Base(cc).certs \o HintSeq(h), X509Base(cc).ws, FALSE)],
+                       [name |-> h \o "|" \o cc, x |-> XI(HintSeq(h) \o X509Base(cc).certs, X509Base(cc).ws, TRUE)],
+                       [name |-> cc \o "|" \o h, x |-> XI(X509Base(cc).certs \o HintSeq(h), X509Base(cc).ws, TRUE)] }
+                     : h \in XHints, cc \in XCerts }
+HintNames == { g.name : g \in XGen }
+X509(c) == IF c \in CertNames THEN X509Base(c) ELSE (CHOOSE g \in XGen : g.name = c).x
+
+(******************************* lexical form ******************************)
+\* How a producer writes an element tree as XML text.  XML-Encryption / XML-Signature fix namespace names and local
+\* names, nothing else: every form below is the SAME element tree to a conformant consumer.
+\*   xenc, ds, xenc11 : how the elements of http://www.w3.org/2001/04/xmlenc# (EncryptedData, EncryptedKey,
+\*          EncryptionMethod, CipherData, CipherValue), http://www.w3.org/2000/09/xmldsig# (KeyInfo, DigestMethod, X509Data
+\*          and its children) and http://www.w3.org/2009/xmlenc11# (MGF) are named:
+\*            "pkg"     with the prefix the package itself writes (xenc: / ds: / xenc11:)
+\*            "other"   with another prefix (enc: / dsig: / e11:)
+\*            "default" without prefix, the namespace being the default namespace (xmlns="...")
+\*   decl : where the namespace declarations stand: "self" on the first element that needs one (what the package does),
+\*          "each" repeated on every element, "top" all on the element handed to Decrypt, "ancestor" on an element
+\*          enclosing it (a default-namespace declaration that cannot stand there stands on the element itself)
+\*   attr : "std" declarations first, then Algorithm / Id ... | "rev" the reverse order
+\*   ws   : white space (line break, indentation) between the child elements of every element that has child elements
+\*   cmt  : comments between the child elements
+Lex(x, d, x11, decl, attr, ws, cmt) == [xenc |-> x, ds |-> d, xenc11 |-> x11, decl |-> decl, attr |-> attr, ws |-> ws, cmt |-> cmt]
+LexPkg == Lex("pkg", "pkg", "pkg", "self", "std", FALSE, FALSE)
+LexAll == { Lex(x, d, x11, dc, at, w, cm) : x \in {"pkg", "other", "default"}, d \in {"pkg", "other", "default"},
+            x11 \in {"pkg", "other", "default"}, dc \in {"self", "each", "top", "ancestor"}, at \in {"std", "rev"},
+            w \in BOOLEAN, cm \in BOOLEAN }
+Uniform(l) == l.xenc = l.ds /\ l.ds = l.xenc11
+Plain(l) == l.attr = "std" /\ ~l.ws /\ ~l.cmt
+Busy(l) == l.attr = "rev" /\ l.ws /\ l.cmt
+NonPkg(l) == Cardinality({ n \in {"xenc", "ds", "xenc11"} : l[n] # "pkg" })
+\* the forms enumerated.  C10 quick: one form of binding for all three namespaces x every place of declaration, plain and
+\* with {attributes reversed, white space, comments} together; every mixed binding (declared on the element, plain);
+\* attribute order / white space / comments in every combination with the package's own bindings.
+\* C11 quick: one form of binding x every place of declaration plain, declared on the element also busy; the mixed
+\* bindings in which one namespace departs from the package's prefix.
+\* C10 thorough: all uniform forms; all mixed bindings declared on the element or on an ancestor, plain and busy.
+\* C11 thorough: the uniform forms plain and busy for every place of declaration, in every combination of attribute
+\* order / white space / comments when declared on the element; all mixed bindings declared on the element, plain.
+LexC10q == { l \in LexAll : \/ Uniform(l) /\ (Plain(l) \/ Busy(l))
+                            \/ l.decl = "self" /\ Plain(l)
+                            \/ Uniform(l) /\ l.xenc = "pkg" /\ l.decl = "self" }
+LexC11q == { l \in LexAll : \/ Uniform(l) /\ (Plain(l) \/ (Busy(l) /\ l.decl = "self"))
+                            \/ NonPkg(l) = 1 /\ l.decl = "self" /\ Plain(l) }
+LexC10t == { l \in LexAll : Uniform(l) \/ (l.decl \in {"self", "ancestor"} /\ (Plain(l) \/ Busy(l))) }
+LexC11t == { l \in LexAll : (Uniform(l) /\ (Plain(l) \/ Busy(l) \/ l.decl = "self")) \/ (l.decl = "self" /\ Plain(l)) }
+LexForms == CASE Family = "C10q" -> LexC10q [] Family = "C11q" -> LexC11q [] Family = "C10t" -> LexC10t [] OTHER -> LexC11t
+NsOf(name) == CASE name \in {"EncryptedData", "EncryptedKey", "EncryptionMethod", "CipherData", "CipherValue"} -> "xenc"
+                [] name = "MGF" -> "xenc11"
+                [] OTHER -> "ds"     \* KeyInfo, DigestMethod, X509Data, X509Certificate, X509IssuerSerial, ...
+\* The lookups of the code are etree paths (decrypt.go:56 ./EncryptionMethod, :69 ./CipherData/CipherValue,
+\* :98 ./KeyInfo/X509Data/X509Certificate, :116 ./KeyInfo/X509Data/X509IssuerSerial; pubkey.go:120
+\* ./EncryptionMethod/DigestMethod, :137 ./EncryptionMethod/MGF; cbc.go:86, gcm.go:91 ./KeyInfo/EncryptedKey).  A path
+\* step without prefix selects the child elements of that local name whatever their prefix or default namespace, among
+\* the child ELEMENTS (white space and comments are other tokens) ; Algorithm is read by name (SelectAttrValue), whatever
+\* its position.  A step "p:Name" would select only elements written with the literal prefix p: a lookup named in
+\* PrefixBound sees an element only in the forms that use the package's prefix for its namespace.
+Sees(d, lex, name) == name \notin d.PrefixBound \/ lex[NsOf(name)] = "pkg"
+\* the element as the lookups of an implementation with deviations d see it when it is written in form lex
+View(d, lex, e) ==
+  LET s(names) == \A n \in names : Sees(d, lex, n) IN
+  [e EXCEPT !.em   = IF s({"EncryptionMethod"}) THEN @ ELSE "absent",
+            !.dm   = IF s({"EncryptionMethod", "DigestMethod"}) THEN @ ELSE [k |-> "absent", name |-> "", uri |-> ""],
+            !.mgf  = IF s({"EncryptionMethod", "MGF"}) THEN @ ELSE "absent",
+            !.eks  = IF s({"KeyInfo", "EncryptedKey"}) THEN @ ELSE <<>>,
+            !.cert = IF s({"KeyInfo", "X509Data"}) THEN @ ELSE "absent",
+            !.cv   = IF @ = "ok" /\ ~s({"CipherData", "CipherValue"}) THEN "nocv" ELSE @]
 
 PadLen(n, bs) == bs - (n % bs)
 
@@ -176,9 +276,21 @@ KtCases == {[kt |-> "direct", dm |-> "none"]}
            \cup {[kt |-> "rsa-oaep11", dm |-> h] : h \in {"sha256", "sha512"}} \* OAEP_SHA256(), OAEP_SHA512()
            \cup {[kt |-> "rsa-1_5", dm |-> "none"]}                            \* PKCS1v15()
 PLens(a) == 0 .. (4 * W3C(a).block + 1)
-C10Cases == { [bc |-> a, kt |-> k.kt, dm |-> k.dm, plen |-> n, nonce |-> nn] :
+\* fam "base": the three directions, everything in the package's own lexical form, the recipient's certificate embedded.
+\* lex : lexical form in which the independent producer writes its element;  ki : X509Data class it embeds
+C10Cases == { [fam |-> "base", bc |-> a, kt |-> k.kt, dm |-> k.dm, plen |-> n, nonce |-> nn, lex |-> LexPkg, ki |-> "sp"] :
                 a \in BCs, k \in KtCases, n \in 0..65, nn \in {"supplied", "generated"} }
-C10Set == { x \in C10Cases : x.plen \in PLens(x.bc) }
+\* fam "lex": direction ref2pkg only.  The independent producer writes the same ciphertexts in every lexical form and
+\* with the key information conformant producers embed: the recipient's certificate, its X509IssuerSerial followed by
+\* the certificate (xmlsec, Shibboleth), none.  (The package's own output has one form: it is family "base".)
+C10LexBcs == IF Thorough THEN {"aes128-cbc", "aes256-cbc", "tripledes-cbc", "aes128-gcm"} ELSE {"aes128-cbc", "aes128-gcm"}
+C10LexLens == IF Thorough THEN {0, 17} ELSE {17}
+\* key information other than the bare certificate: with one form of binding for all namespaces, declared on the element
+C10Kis(kt, l) == IF kt = "direct" THEN {"absent"}
+                 ELSE IF Uniform(l) /\ Plain(l) /\ l.decl = "self" THEN {"sp", "is+sp", "absent"} ELSE {"sp"}
+C10Lex == UNION { { [fam |-> "lex", bc |-> a, kt |-> k.kt, dm |-> k.dm, plen |-> n, nonce |-> "supplied", lex |-> l, ki |-> x] :
+                    a \in C10LexBcs, n \in C10LexLens, x \in C10Kis(k.kt, l) } : k \in KtCases, l \in LexForms }
+C10Set == { x \in C10Cases : x.plen \in PLens(x.bc) } \cup C10Lex
 
 \* ---- C11: elements an attacker can build.  Built with W3C parameters unless said otherwise.
 \* data key "K" of length klen; genuine CBC body of n bytes whose final plaintext byte is p
@@ -275,6 +387,12 @@ F4b == { [fam |-> "ek", via |-> "rsa", el |-> GoodData(a, << StdEK(n) >>), key |
                el |-> GoodData("aes128-cbc", << [StdEK(16) EXCEPT !.len = n, !.ct = Wrap("junk", "none", "none", "none", Bytes(0, "X"))] >>),
                key |-> SpKey] : n \in {0, 1, 255, 256, 257, 512} }
 
+\* F4x: X509Data as a sequence of items: hints alone, in front of / behind / beside certificates (table XGen)
+F4x == { [fam |-> "ekx", via |-> "rsa",
+          el |-> GoodData("aes128-cbc", << RefEK(kt, IF kt = "rsa-1_5" THEN NoDm ELSE Dm("sha1", "w3c"), "absent", cert, to, Bytes(16, "K")) >>),
+          key |-> KeyVal("rsa", 256, kn)] :
+          kt \in KTs, cert \in HintNames, to \in {"sp", "sp2"}, kn \in {"sp", "sp2"} }
+
 \* F5: nested and repeated EncryptedKey elements
 \* depth 2: the data key K is CBC-encrypted under K2 inside an EncryptedKey that itself carries an RSA EncryptedKey
 KwCbc(a) == Blk("cbc", "aes", "K2", 16, 16, 32, 0, Bytes(W3C(a).key, "K"), 32 - W3C(a).key, "p", FALSE, "none")
@@ -291,7 +409,22 @@ F5 == UNION { { [fam |-> "nest", via |-> "rsa", el |-> Depth2(a, RefEK("rsa-oaep
                 [fam |-> "nest", via |-> "rsa", el |-> GoodData(a, << StdEK(W3C(a).key), StdEK(W3C(a).key) >>), key |-> SpKey] }
             : a \in {"aes128-cbc", "aes256-cbc", "tripledes-cbc", "aes128-gcm"} }
 
-C11Set == F1 \cup F2 \cup F3 \cup F3k \cup F4 \cup F4b \cup F5
+C11Base == F1 \cup F2 \cup F3 \cup F3k \cup F4 \cup F4b \cup F4x \cup F5
+\* F6: the lexical form.  Cases of every verdict class - lengths around a well-formed cipher value with every final byte /
+\* modified region, every structural variant, EncryptedKey variants (digest method absent / unknown / known, MGF, X509Data
+\* absent / matching / other key / hints with and without certificate), nesting and repetition - written in every form.
+LexAlgs == {"aes128-cbc", "tripledes-cbc", "aes128-gcm"}
+LexCerts == {"absent", "sp", "sp2", "ec256", "is", "is+sp", "is+sp2", "sp2+is", "sn|sp2"}
+LexBase == { x \in F1 : x.el.em \in LexAlgs /\ x.el.len \in {0, GoodLen(x.el.em) - 1, GoodLen(x.el.em)}
+                        /\ x.el.ct.klen = W3C(x.el.em).key }
+           \cup F2
+           \cup { x \in F4 \cup F4x : /\ x.el.eks[1].dm \in {NoDm, UnknownDm, Dm("sha1", "w3c"), Dm("sha256", "w3c")}
+                                      /\ (x.el.eks[1].cert \in CertNames => x.el.eks[1].dm # Dm("sha1", "w3c"))
+                                      /\ x.el.eks[1].cert \in LexCerts
+                                      /\ x.el.eks[1].ct.to = "sp" /\ x.key.id = "sp" }
+           \cup { x \in F5 : x.el.em = "aes128-cbc" }
+WithLex(S, l) == { [fam |-> x.fam, via |-> x.via, el |-> x.el, key |-> x.key, lex |-> l] : x \in S }
+C11Set == WithLex(C11Base, LexPkg) \cup UNION { WithLex(LexBase, l) : l \in LexForms \ {LexPkg} }
 
 IsC10 == Family \in {"C10q", "C10t"}
 
@@ -318,16 +451,22 @@ NoRet == [k |-> "none", why |-> "", val |-> Bytes(0, "X"), nondet |-> FALSE]
 NoBuf == [len |-> 0, last |-> -1, genuine |-> FALSE, id |-> "X", ptlen |-> 0]
 NoEl  == DataEl("absent", "nocd", 0, NoCt, <<>>)
 NoOut == [k |-> "none", why |-> "", nondet |-> FALSE]
-Top == frames[Len(frames)]
+\* the lexical form of the element being decrypted: the package's own output has the package's form
+CurLex == IF phase \in {"self", "pkg2ref"} THEN LexPkg ELSE c.lex
+\* the frame being decrypted, as the lookups of the decrypting implementation see it
+Top == View(DD, CurLex, frames[Len(frames)])
 
 Init == /\ impl \in {"w3c", "code", "fixed"}
         /\ IF IsC10
              THEN /\ c \in C10Set
-                  /\ phase = "encP" /\ pc = "EncKey" /\ frames = <<>>
+                  /\ phase = (IF c.fam = "lex" THEN "encR" ELSE "encP") /\ pc = "EncKey" /\ frames = <<>>
                   /\ kv = KeyVal("nil", 0, "none")
              ELSE /\ c \in C11Set
                   /\ phase = "dec" /\ pc = "FindMethod" /\ frames = <<c.el>>
                   /\ kv = c.key
+        \* no deviation record reads the lexical form (PrefixBound = {} in all of them): the prediction for the pinned
+        \* tree is made once per case, in the package's form
+        /\ (c.lex # LexPkg => impl # "code")
         /\ buf = NoBuf /\ ret = NoRet /\ elP = NoEl /\ elR = NoEl
         /\ out = [self |-> NoOut, pkg2ref |-> NoOut, ref2pkg |-> NoOut, dec |-> NoOut]
 
@@ -342,7 +481,7 @@ EncEK(d) ==
                          ELSE Wrap("oaep", EncHash, EncMgf(d), "sp", Bytes(KeySize(d, c.bc), "K")),
      IF c.kt = "rsa-1_5" THEN NoDm ELSE Dm(c.dm, d.DigestEmit),
      IF c.kt = "rsa-oaep11" /\ ~d.Oaep11NoMgf THEN c.dm ELSE "absent",
-     "sp", <<>>)
+     IF phase = "encP" THEN "sp" ELSE c.ki, <<>>)
 EncKey ==
   /\ pc = "EncKey"
   /\ kv' = IF c.kt = "direct" THEN KeyVal("bytes", W3C(c.bc).key, "K") ELSE KeyVal("bytes", KeySize(ED, c.bc), "K")
@@ -439,12 +578,12 @@ RsaKeyType == /\ pc = "RsaKeyType"
               /\ IF kv.t # "rsa" THEN Fail("error", "KeyType")
                  ELSE IF ~DD.NoKeyCompletenessCheck /\ kv.shape \in Incomplete THEN Fail("error", "IncompleteKey")
                  ELSE Goto("RsaCert")
-\* decrypt.go:92-111  the FIRST ./KeyInfo/X509Data/X509Certificate in document order: PEM-decode (white space is
-\* skipped), parse, must be RSA, modulus and exponent equal to the key's.  Without one (no X509Data, or an X509Data
-\* with other children: the X509IssuerSerial branch is empty) nothing is compared.
+\* decrypt.go:98-115  the FIRST ./KeyInfo/X509Data/X509Certificate in document order - whatever stands in front of it
+\* or beside it, in whichever X509Data element: PEM-decode (white space is skipped), parse, must be RSA, modulus and
+\* exponent equal to the key's.
 RsaCert == /\ pc = "RsaCert"
-           /\ LET x == X509(Top.cert).certs IN
-              IF x = <<>> THEN Goto("RsaCipherText")
+           /\ LET x == IF Sees(DD, CurLex, "X509Certificate") THEN X509(Top.cert).certs ELSE <<>> IN
+              IF x = <<>> THEN Goto("RsaIssuerSerial")
               ELSE LET crt == x[1] IN
                    CASE crt.kind = "garbage" -> Fail("error", "InvalidCertificate")
                      [] crt.kind = "ec"      -> Fail("error", "CertificateNotRSA")
@@ -454,14 +593,22 @@ RsaCert == /\ pc = "RsaCert"
                         ELSE IF crt.n # PubN(kv) THEN Fail("error", "CertificateMismatch")      \* modulus clause
                         ELSE IF crt.e # PubE(kv) THEN Fail("error", "CertificateMismatch")      \* exponent clause
                         ELSE Goto("RsaCipherText")
+\* decrypt.go:116-118  else if ./KeyInfo/X509Data/X509IssuerSerial: reached only without an X509Certificate; the branch
+\* is empty (TODO in the code), X509SubjectName / X509SKI are not looked at: nothing is compared
+RsaIssuerSerial == /\ pc = "RsaIssuerSerial"
+                   /\ Goto("RsaCipherText")
 RsaCipherText == /\ pc = "RsaCipherText"
                  /\ IF Top.cv # "ok" THEN Fail("error", "CipherValue") ELSE Goto("RsaDigest")
 DigestKnown(d, dm) == dm.k = "known" /\ (dm.uri = "both" \/ dm.uri \in d.DigestAccept)
 \* the lookup is done for every RSA algorithm, also rsa-1_5
 RsaDigest == /\ pc = "RsaDigest"
              /\ IF Top.dm.k # "absent" /\ ~DigestKnown(DD, Top.dm)
-                  THEN Fail("error", "DigestNotImplemented") ELSE Goto("RsaUnwrap")
+                  THEN Fail("error", "DigestNotImplemented") ELSE Goto("RsaMgf")
 DecHash(e) == IF e.dm.k = "absent" THEN "sha1" ELSE e.dm.name
+\* pubkey.go:133-143  xmlenc11 rsa-oaep only: ./EncryptionMethod/MGF, default mgf1sha1
+RsaMgf == /\ pc = "RsaMgf"
+          /\ IF Top.em = "rsa-oaep11" /\ DD.Oaep11MgfIsDigest /\ (IF Top.mgf = "absent" THEN "sha1" ELSE Top.mgf) # DecHash(Top)
+               THEN Fail("error", "MgfNotImplemented") ELSE Goto("RsaUnwrap")
 DecMgf(d, e) == IF e.em = "rsa-oaep-mgf1p"
                   THEN (IF d.MgfFollowsDigest THEN DecHash(e) ELSE "sha1")
                   ELSE (IF d.Oaep11NoMgf THEN DecHash(e) ELSE IF e.mgf = "absent" THEN "sha1" ELSE e.mgf)
@@ -541,8 +688,8 @@ GcmOpen ==
        THEN Yield(Bytes(b.body, IF b.src = "p" /\ ~b.padded THEN b.pt.id ELSE "X"), ret.nondet)
        ELSE Fail("error", "AuthenticationFailed")
 
-Next == EncKey \/ EncBlock \/ FindMethod \/ Lookup \/ Nested \/ Return \/ RsaKeyType \/ RsaCert \/ RsaCipherText
-        \/ RsaDigest \/ RsaUnwrap \/ KeyType \/ KeyLen \/ Decode \/ LenCheck \/ Split \/ BlockDecrypt \/ Strip
+Next == EncKey \/ EncBlock \/ FindMethod \/ Lookup \/ Nested \/ Return \/ RsaKeyType \/ RsaCert \/ RsaIssuerSerial \/ RsaCipherText
+        \/ RsaDigest \/ RsaMgf \/ RsaUnwrap \/ KeyType \/ KeyLen \/ Decode \/ LenCheck \/ Split \/ BlockDecrypt \/ Strip
         \/ GcmSplit \/ GcmOpen
 Spec == Init /\ [][Next]_vars
 
@@ -553,8 +700,16 @@ Required == impl = "w3c"      \* the run of the required design
 \* ---- C10
 \* "decrypting what the package encrypted returns the plaintext unchanged ... also decrypts ciphertexts
 \*  produced by an independent implementation ... and that implementation decrypts the package's ciphertexts"
+\* "Interoperates": what identifies an algorithm, a digest, a key is fixed by the W3C recommendations as namespace
+\* name + local name + attribute value; the prefix, the place of the declarations, the order of attributes, white space
+\* and comments between child elements are the producer's choice, and so is the key information beside the
+\* EncryptedKey.  Hence MustAccept for every case, whatever c.lex and c.ki.
 C10Class == "MustAccept"
-RoundTrip == Done /\ IsC10 /\ Required => out.self.k = "plaintext" /\ out.pkg2ref.k = "plaintext" /\ out.ref2pkg.k = "plaintext"
+ThreeWay == c.fam = "base"     \* family "lex" exercises the direction independent implementation -> package only
+RoundTrip == Done /\ IsC10 /\ Required => /\ out.ref2pkg.k = "plaintext"
+                                         /\ (ThreeWay => out.self.k = "plaintext" /\ out.pkg2ref.k = "plaintext")
+\* a consumer that interoperates selects elements by namespace name and local name, never by prefix
+PrefixAgnostic == Required => D.PrefixBound = {}
 \* every algorithm URI an offered Encrypter writes has a registered Decrypter with the same parameters
 EncParams(d, a) == [key |-> KeySize(d, a), cipher |-> Cipher(d, a), iv |-> IF W3C(a).mode = "gcm" THEN (IF d.GcmNonceNotEmitted THEN 0 ELSE 12) ELSE IvEnc(a),
                     pad |-> W3C(a).mode = "cbc" \/ d.GcmPads]
@@ -566,7 +721,7 @@ Closure(d, x) == /\ Registered(d, x.bc) /\ EncParams(d, x.bc) = DecParams(d, x.b
 RegistryClosure == IsC10 /\ Required => Closure(D, c)
 \* predicted cipher value length of the data element
 CvLen(x) == LET w == W3C(x.bc) IN IF w.mode = "cbc" THEN w.iv + x.plen + PadLen(x.plen, w.block) ELSE 12 + x.plen + 16
-CipherValueLength == Done /\ IsC10 /\ Required => elP.len = CvLen(c) /\ elR.len = CvLen(c)
+CipherValueLength == Done /\ IsC10 /\ Required => (ThreeWay => elP.len = CvLen(c)) /\ elR.len = CvLen(c)
 
 \* ---- C11   (classification per DESIGN 14, evaluated on the element, not on the machine)
 RECURSIVE PathOf(_)
@@ -591,7 +746,10 @@ BadKey(e, k) == IF e.em \in BCs THEN k.t # "bytes" \/ k.len # W3C(e.em).key
 \* "an RSA-wrapped key whose embedded certificate does not match the supplied private key is rejected": the
 \* certificate's public key is the key's public key - same algorithm, same modulus AND same exponent.  With several
 \* certificates the statement does not say which one counts: required only when none of them matches.  Text that is
-\* not a certificate is not "a certificate that does not match".
+\* not a certificate is not "a certificate that does not match".  "Embedded certificate" is every X509Certificate of
+\* the KeyInfo: what else X509Data holds (X509IssuerSerial, X509SubjectName, X509SKI, before or behind it, in the same
+\* or in another X509Data element) does not enter.  Hints alone are not a certificate: no clause speaks of them.
+\* Nothing here reads c.lex: the class of a case is the class of its element tree, whatever its lexical form.
 Matches(crt, k) == crt.kind = "rsa" /\ crt.n = PubN(k) /\ crt.e = PubE(k)
 CertMismatch(e, k) == /\ e.em \in KTs /\ k.t \in RsaHolders
                       /\ LET x == X509(e.cert).certs IN
@@ -629,16 +787,17 @@ TypeOK == /\ impl \in {"w3c", "code", "fixed"}
           /\ ret.k \in {"none", "bytes", "error", "panic"}
           /\ \A f \in {"self", "pkg2ref", "ref2pkg", "dec"} : out[f].k \in {"none", "plaintext", "wrongtext", "error", "panic"}
           /\ Len(frames) <= 3
-OneOutcome == Done => IF IsC10 THEN out.self.k # "none" /\ out.pkg2ref.k # "none" /\ out.ref2pkg.k # "none"
+OneOutcome == Done => IF IsC10 THEN /\ out.ref2pkg.k # "none"
+                                     /\ (ThreeWay <=> out.self.k # "none") /\ (ThreeWay <=> out.pkg2ref.k # "none")
                                 ELSE out.dec.k # "none"
 
 (***************************** vector emission *****************************)
 EmitC10 == PrintT(<<"VEC", ToJson([prop |-> "C10", model |-> impl, case |-> c, class |-> C10Class, req |-> "plaintext",
                                    cvlen |-> CvLen(c), closure |-> Closure(D, c),
                                    uris |-> [bc |-> Uri(c.bc), kt |-> Uri(c.kt)],
-                                   refel |-> elR, pkgel |-> elP,
+                                   refel |-> elR, pkgel |-> elP, x509 |-> <<X509("absent"), X509(c.ki)>>,
                                    pred |-> [self |-> out.self, pkg2ref |-> out.pkg2ref, ref2pkg |-> out.ref2pkg]])>>)
-EmitC11 == PrintT(<<"VEC", ToJson([prop |-> "C11", model |-> impl, fam |-> c.fam, via |-> c.via, el |-> c.el, key |-> c.key,
+EmitC11 == PrintT(<<"VEC", ToJson([prop |-> "C11", model |-> impl, fam |-> c.fam, via |-> c.via, el |-> c.el, key |-> c.key, lex |-> c.lex,
                                    class |-> C11Class, baseline |-> Baseline,
                                    x509 |-> [i \in 1..Len(CPath) |-> X509(CPath[i].cert)],
                                    why |-> [i \in 1..Len(CPath) |->
